@@ -351,8 +351,38 @@ func quote(v rt.Value) (string, bool) {
 	case rt.BoolType:
 		return strconv.FormatBool(v.AsBool()), true
 	case rt.StringType:
-		return strconv.Quote(v.AsString()), true // An approximation
+		return quoteString(v.AsString()), true
 	default:
 		return "", false
 	}
+}
+
+// quoteString returns s written as a Lua string literal: a Lua string is a
+// sequence of bytes, which are copied as they are apart from the quote, the
+// backslash and the control characters.  These are escaped in a way that the
+// Lua lexer understands (which is not the case of Go escapes such as \u0085).
+func quoteString(s string) string {
+	var b strings.Builder
+	b.WriteByte('"')
+	for i := 0; i < len(s); i++ {
+		switch c := s[i]; {
+		case c == '"' || c == '\\':
+			b.WriteByte('\\')
+			b.WriteByte(c)
+		case c >= '\a' && c <= '\r':
+			b.WriteByte('\\')
+			b.WriteByte("abtnvfr"[c-'\a'])
+		case c < ' ' || c == 0x7f:
+			// A decimal escape must have 3 digits if a digit follows it
+			if i+1 < len(s) && s[i+1] >= '0' && s[i+1] <= '9' {
+				fmt.Fprintf(&b, "\\%03d", c)
+			} else {
+				fmt.Fprintf(&b, "\\%d", c)
+			}
+		default:
+			b.WriteByte(c)
+		}
+	}
+	b.WriteByte('"')
+	return b.String()
 }
